@@ -30,6 +30,9 @@ def gen_case(rnd, tier):
         "special": rnd.choice([0.0, 0.1, 0.25]),
         "m0_none": rnd.random() < 0.1,
         "m0_int": rnd.random() < 0.15,
+        # a misfit that creeps down and, here and there, up again by next to nothing (or not at all): "never increases" is strict
+        "mis_script": (lambda vals: vals)([20.0 - 0.5 * k + rnd.choice([0.0, 0.0, 2.0 ** -40, 1e-9, 3e-6, -2.0 ** -40]) * (k % 2) + (0.5 if (k % 2 and rnd.random() < 0.5) else 0.0)
+                                            for k in range(12)]) if rnd.random() < 0.3 else None,
     }
 
 
@@ -38,6 +41,8 @@ def run_impl(c):
     from .probes import FnTarget
 
     t = FnTarget(c["d"], seed=c["tseed"], special_rate=c["special"])
+    if c.get("mis_script"):
+        t.script = list(c["mis_script"])        # misfit of the 1st, 2nd, ... distinct model: a descent with increases of the last bits
     if c.get("m0_int"):
         c["m0"] = [float(round(v)) for v in c["m0"]]       # a starting model of whole numbers, integer dtype
     m0 = None if c["m0_none"] else numpy.array(c["m0"], dtype=(int if c.get("m0_int") else float)).reshape(c["d"], 1)
